@@ -30,34 +30,68 @@ func replayEngineExample(f Finding) bool {
 	if err != nil {
 		return true
 	}
-	d, err := lazy.CompileWithConfig(n, lazy.DefaultConfig().WithPrefilter(false))
+	capb, clears := 2<<20, 5
+	fmt.Sscanf(f.Example["config"], "cap=%d,clears=%d", &capb, &clears)
+	d, err := lazy.CompileWithConfig(n, lazy.DefaultConfig().WithCacheCapacity(capb).WithMaxCacheClears(clears).WithPrefilter(false))
 	if err != nil {
 		return true
 	}
 	c := d.NewCache()
 	dump := dumpNFA(n)
-	var got, req string
-	switch f.Example["op"] {
-	case "IsMatch":
-		got = guard(10*time.Second, func() string { return fmt.Sprint(d.IsMatch(c, h)) })
-		req = fmt.Sprintf("bt ismatch 0 %s %s", hexOf(h), dump)
-	default:
-		got = guard(10*time.Second, func() string { return fmt.Sprint(d.SearchAt(c, h, at)) })
-		req = fmt.Sprintf("bt search %d %s %s", at, hexOf(h), dump)
+	// The witness is the pattern + configuration: the standard short-haystack enumeration (one reused cache, as in the
+	// check, because several of these defects only show on a cache that has been used) followed by the recorded haystack.
+	var hays [][]byte
+	reps := byteClassReps(n)
+	if len(reps) > 6 {
+		reps = reps[:6]
 	}
-	ans, err := RunLean([]string{req})
+	var gen func(prefix []byte, l int)
+	gen = func(prefix []byte, l int) {
+		hays = append(hays, append([]byte(nil), prefix...))
+		if l == 0 {
+			return
+		}
+		for _, b := range reps {
+			gen(append(prefix, b), l-1)
+		}
+	}
+	gen(nil, 3)
+	hays = append(hays, h)
+	var reqs, gots []string
+	for _, hh := range hays {
+		hh := hh
+		for a := 0; a <= len(hh); a++ {
+			a := a
+			if f.Example["op"] == "IsMatch" {
+				if a > 0 {
+					break
+				}
+				gots = append(gots, guard(10*time.Second, func() string { return fmt.Sprint(d.IsMatch(c, hh)) }))
+				reqs = append(reqs, fmt.Sprintf("bt ismatch 0 %s %s", hexOf(hh), dump))
+			} else {
+				gots = append(gots, guard(10*time.Second, func() string { return fmt.Sprint(d.SearchAt(c, hh, a)) }))
+				reqs = append(reqs, fmt.Sprintf("bt search %d %s %s", a, hexOf(hh), dump))
+			}
+		}
+	}
+	_ = at
+	ans, err := RunLean(reqs)
 	if err != nil {
 		return true
 	}
-	want := ans[0]
-	if f.Example["op"] != "IsMatch" {
-		if want == "nil" {
-			want = "-1"
-		} else {
-			want = want[strings.IndexByte(want, ',')+1:]
+	for i, want := range ans {
+		if f.Example["op"] != "IsMatch" {
+			if want == "nil" {
+				want = "-1"
+			} else {
+				want = want[strings.IndexByte(want, ',')+1:]
+			}
+		}
+		if gots[i] != want {
+			return true
 		}
 	}
-	return got != want
+	return false
 }
 
 // dumpNFA serialises an NFA through its exported accessors in the format Cx.Driver.parseNfa reads.
@@ -359,7 +393,8 @@ func checkC14(r *Report, known []Finding) {
 			}
 		}
 		if f := matchKnown(known, "C14", attrs); f != nil {
-			r.KnownHits[f.ID]++
+			r.Known(f, map[string]string{"kind": "engine", "engine": c.engine, "op": c.op, "pattern": c.pattern, "haystack_hex": hexOf(c.h),
+				"at": fmt.Sprint(c.at), "config": c.cfg, "got": c.got, "want": want})
 			continue
 		}
 		r.Violate(fmt.Sprintf("%s.%s %s on pattern %q haystack %q at=%d: engine=%s reference(NFA model)=%s [%s]", c.engine, c.op, c.cfg, c.pattern, c.h, c.at, c.got, want, kind),
